@@ -1,8 +1,8 @@
 CONSTANTS
   RATE = 8
   WIDTH = 12
-  Disabled = {}
-  UseEnvConfigs = TRUE
+  Mutants = {{}}
+  ConfigSet = "env"
 INIT Init
 NEXT Next
 CHECK_DEADLOCK FALSE
